@@ -17,7 +17,7 @@ PROP = dict(
             "variant on the wire (ClockAccuracy::ProfileSpecific(v>=0x7e), TimeSource::ProfileSpecific/Reserved holding a named code, TlvType::Reserved/Legacy/Experimental holding a code of another class); serde impls; "
             "meaning of reserved bits: the oracle requires equality on the defined bits of IEEE 1588-2019 and zero on reserved bits (flagField 0x98/0x80, messageTypeSpecific, controlField, Announce/Pdelay_Req reserved octets)",
     assumptions=[
-        "c41_build_*: TLV value lengths even and the last TLV non-empty (the complement of the second is the finding harness c41_build_kf_trailing_empty_tlv; odd lengths: harness c41_build_kf_odd_tlv_length exists, fails as expected in 395 s, not registered because its concrete-playback re-run crashes kani-driver - native evidence in the report)",
+        "c41_build_*: TLV value lengths even (IEEE 1588 lengthField is even; odd lengths are rejected by the parser by design while TlvSetBuilder::add accepts them - harness c41_build_kf_odd_tlv_length documents this, not registered); empty-valued TLVs anywhere, including last, are inside the claim",
         "c41_build_*: enum payloads canonical (ClockAccuracy/TimeSource values drawn from the image of the public from_primitive; TlvType::Reserved/Experimental/Legacy payloads inside their own code ranges)",
         "header fields within the ranges their public constructors enforce (SdoId <= 0xfff, version nibbles < 16, Timestamp::new)",
     ],
@@ -29,6 +29,6 @@ PROP = dict(
         H(ST, "c41", "c41_build_" + k, "%s body, symbolic header/body/TLVs: serialise (length, messageLength, TLV headers at their offsets) and parse back to an equal message; TLVs iterate in order" % n,
           tier=("quick" if k in _quick_kinds else "thorough"), timeout=900) for k, n in _kinds if k in ("sync", "announce", "management")
     ] + [
-        H(ST, "c41", "c41_build_kf_trailing_empty_tlv", "FINDING (expected to fail until fixed): a message whose last TLV has an empty value serialises but does not parse back", timeout=1200),
+        H(ST, "c41", "c41_build_trailing_empty_tlv", "regression harness for 24ae201: Sync body whose last TLV has an empty value: serialise -> parse is the identity and the iterator yields the empty TLV (fails on the pre-fix tree)", timeout=900),
     ],
 )
